@@ -261,6 +261,58 @@ def rule_pad_segment_nonzero(ctx: Ctx) -> RuleResult:
     return rr
 
 
+_SIZE_INDEX_OK = {
+    "widget.pile.Pile.get_item_rows": "annotated with tuple[()] but called with a sized tuple only: get_rows_sizes() packs the items of a fixed Pile itself",
+    "widget.pile.Pile.render": "the empty-combinelist arm: a Pile that reports FIXED has a fixed item with at least one row, a Pile without rows reports flow / box only",
+}
+
+
+def rule_size_index_guarded(ctx: Ctx) -> RuleResult:
+    """A widget method that accepts the fixed size `()` (its `size` annotation says so) may index the tuple only where
+    a test has shown it non-empty - `if size:`, `len(size) == 2`, `x if size else y`.  An unguarded size[0] works for
+    every flow / box call and raises IndexError for the fixed one: Padding.render() took the width of its blank
+    replacement canvas from size[0] when the child rendered 0 columns wide (fix c5b9499: Padding(Text(''),
+    width='pack').render(()) -> IndexError although sizing() reports FIXED)."""
+    from ..rules.exc import ExcEngine
+
+    p = ctx.p
+    rr = RuleResult("GUARD", "C01.31", "a method whose size may be () indexes it only under a test of the size", floor=15)
+    for q, fi in sorted(p.functions.items()):
+        if not fi.module.name.startswith("urwid.widget") or fi.is_lambda or "size" not in fi.params:
+            continue
+        arg = next((a for a in fi.node.args.args + fi.node.args.kwonlyargs if a.arg == "size"), None)
+        if arg is None or arg.annotation is None or "tuple[()]" not in ast.unparse(arg.annotation):
+            continue
+        subs = [x for x in fi.own_nodes() if isinstance(x, ast.Subscript) and isinstance(x.value, ast.Name) and x.value.id == "size" and isinstance(x.ctx, ast.Load) and isinstance(x.slice, ast.Constant) and isinstance(x.slice.value, int)]
+        if not subs:
+            continue
+        cfg = cfg_of(fi)
+        parents = {id(ch): pa for pa in ast.walk(fi.node) for ch in ast.iter_child_nodes(pa)}
+        for sb in subs:
+            ok = False
+            x = sb
+            while id(x) in parents and not isinstance(x, ast.stmt):
+                pa = parents[id(x)]
+                if isinstance(pa, ast.IfExp) and "size" in ast.unparse(pa.test):
+                    ok = True
+                if isinstance(pa, ast.BoolOp) and any("size" in ast.unparse(v) for v in pa.values if not any(y is sb for y in ast.walk(v))):
+                    ok = True
+                x = pa
+            cn = next((n for n in cfg.nodes for e in _node_exprs(n) for y in ast.walk(e) if y is sb), None)
+            if cn is not None and not ok:
+                for t in cfg.nodes:
+                    if t.kind == "test" and any(isinstance(y, ast.Name) and y.id == "size" for y in ast.walk(t.ast)) and not any(y is sb for y in ast.walk(t.ast)):
+                        if cn not in ExcEngine._reach_without_edge(cfg, t, "T") or cn not in ExcEngine._reach_without_edge(cfg, t, "F"):
+                            ok = True
+            rr.inst(f"{short(fi)}: {norm(parents.get(id(sb), sb), 40)}", True, {"site": f"{short(fi)}: {norm(parents.get(id(sb), sb), 60)}", "under_a_size_test": ok} if len(rr.samples) < 6 else None)
+            if not ok:
+                if short(fi) in _SIZE_INDEX_OK:
+                    rr.exceptions_used.append(f"{short(fi)} - {_SIZE_INDEX_OK[short(fi)]}")
+                    continue
+                rr.add(finding("GUARD", fi, sb, f"`{norm(parents.get(id(sb), sb), 60)}` indexes `size` although {fi.name}() accepts the fixed size () and no test of the size lies on the way: every flow / box call works, the fixed rendering the widget's sizing() advertises raises IndexError", construct=f"{fi.name}: size[{sb.slice.value}] without a size test"))
+    return rr
+
+
 def rule_adjust_both_ways(ctx: Ctx) -> RuleResult:
     """A widget that brings its canvas to the requested size with pad_trim_*(.., target - actual) relies on the sign of
     the amount: positive pads, negative trims.  A guard in front of the call may only skip the case target == actual
@@ -759,6 +811,7 @@ def run(ctx: Ctx):
         rule_inverse_percent(ctx),
         rule_given_total(ctx),
         rule_adjust_both_ways(ctx),
+        rule_size_index_guarded(ctx),
         rule_pad_segment_nonzero(ctx),
         rule_complementary_quantities(ctx),
         rule_repeat_bound(ctx),
@@ -773,6 +826,7 @@ _COLS = "urwid/widget/columns.py"
 _CANV = "urwid/canvas.py"
 _TEXT = "urwid/widget/text.py"
 MUTANTS = [
+    Mut("padding-blank-width-from-size", "urwid/widget/padding.py", "Padding.render", "size[0] if size else self.pack(size, focus)[0]", "size[0]", "GUARD|widget.padding.Padding.render|render: size[0] without a size test"),
     Mut("padding-pack-given-min-width", "urwid/widget/padding.py", "Padding.pack", "                self._width_amount + expand,\n", "                max(self._width_amount, self.min_width or 1) + expand,\n", "SIB|widget.padding.Padding.pack|given-width total differs between pack and padding_values"),
     Mut("twin-padding-pack-given-spelled-out", "urwid/widget/padding.py", "Padding.pack", "                self._width_amount + expand,\n", "                self.right + self._width_amount + self.left,\n", twin=True),
     Mut("bargraph-one-width-per-bar", "urwid/widget/bar_graph.py", "BarGraph.calculate_bar_widths", "            return [1] * maxcol", "            return [1] * len(bardata)", "BOUND|widget.bar_graph.BarGraph.calculate_bar_widths|bar widths [1] * len(bardata) not bounded by maxcol"),
